@@ -469,6 +469,63 @@ def offgrid_stream(ctx, n, rng=None):
         yield case, gen_offgrid_pipeline(rng, case)
 
 
+def check_large(ctx, report, rng, label="large"):
+    """a pair larger than every internal bound (100-pixel blocks, path lengths) with a wide masked area beside a narrow
+    valid strip and an interval that does not contain 0: only the end of the pipeline is judged (global interval)"""
+    from ..impl import mc_adapter as A
+
+    rows, cols = rng.choice([(130, 240), (125, 135), (8, 230), (240, 128), (118, 112)])
+    a = rng.choice([2, 3, -6, -8])
+    b = a + rng.choice([3, 4, 5])
+    shift = rng.randint(a, b)
+    base = [[rng.randint(0, 40) for _ in range(cols + 2 * 10)] for _ in range(rows)]
+    left = [row[10:10 + cols] for row in base]
+    right = [[v if rng.random() > 0.2 else rng.randint(0, 40) for v in row[10 + shift:10 + shift + cols]] for row in base]
+    msk = [[0] * cols for _ in range(rows)]
+    strip = rng.randint(9, 14)
+    if cols >= rows:
+        c0 = rng.choice([0, cols - strip, rng.randrange(0, cols - strip)])
+        for r in range(rows):
+            for c in range(cols):
+                if not c0 <= c < c0 + strip:
+                    msk[r][c] = rng.choice([1, 2])
+    else:
+        r0 = rng.choice([0, rows - strip, rng.randrange(0, rows - strip)])
+        for r in range(rows):
+            if not r0 <= r < r0 + strip:
+                msk[r] = [rng.choice([1, 2])] * cols
+    case = {"rows": rows, "cols": cols, "bands": None, "band": None, "left_im": left, "right_im": right,
+            "left_msk": msk, "right_msk": None, "disp": {"kind": "scalar", "min": a, "max": b}, "right_disp": None,
+            "method": rng.choice(["sad", "census"]), "window": 3, "subpix": 1, "row0": 0, "col0": 0, "right": True}
+    pipe = {"matching_cost": A.mc_cfg(case), "disparity": {"disparity_method": "wta", "invalid_disparity": rng.choice(["NaN", -9999])},
+            "validation": {"validation_method": "cross_checking_accurate", "cross_checking_threshold": rng.choice([0.0, 1.0]),
+                           "interpolated_disparity": rng.choice(["sgm", "sgm", "mc-cnn"])}}
+    if rng.random() < 0.4:
+        pipe["filter.after"] = {"filter_method": "median", "filter_size": 3}
+    payload = {"case": case, "pipeline": pipe}
+    res = A.run_pipeline(case, pipe)
+    report.count("large_pipelines")
+    if isinstance(res, dict):
+        report.count(f"pipeline_raises_{res['error']}")
+        return
+    out_l, _out_r, _m = res
+    import numpy as np
+
+    mask = np.array(out_l["validity_mask"].data).astype(np.int64)
+    valid = ((mask & INVALID_BITS) == 0).tolist()
+    pl_ = G.payload(case, "left")
+    pl_.update({"disp": enc_map(np.array(out_l["disparity_map"].data, dtype=np.float64)), "valid_px": valid, "mode": "global"})
+    out = ctx.lean.call("C09.inside", **pl_)
+    if out["n_valid"]:
+        report.hit("final_in_global_interval", out["n_valid"])
+    if out["n_bad"]:
+        trig = "final_outside_after_" + pipe["validation"]["interpolated_disparity"] + "_filling"
+        report.fail("final_in_global_interval", trig, payload, {"bad": out["bad"]},
+                    f"{out['n_bad']} valid pixels of a {rows}x{cols} map end outside the requested global interval [{a}, {b}]: {json.dumps(out['bad'][:1])}")
+    report.case(key=json.dumps({"large": [rows, cols, a, b, shift, strip], "pipe": pipe}, sort_keys=True), nontrivial=out["n_valid"] > 0,
+                sample={"label": label, "shape": [rows, cols], "interval": [a, b], "steps": list(pipe)})
+
+
 def run_corpus_case(ctx, report, name, data, with_model=True):
     if "pipeline" in data:
         check_pipeline(ctx, report, data["case"], data["pipeline"], "corpus:" + name)
@@ -485,7 +542,8 @@ def run(ctx, report, status):
         "single-scale pipelines (wta, optional cbca, vfit/quadratic refinement, median/bilateral filter, cross-checking with "
         "mc-cnn/sgm filling) run step by step on small pairs with scalar intervals or grids, the map entering every step of "
         "the tail being checked against the hypotheses of the composition theorems (C09.hyp); plus pipelines of the excluded "
-        "shape (filter or filling BEFORE refinement); non-trivial = some compared cell / some valid pixel; distinct by full input"
+        "shape (filter or filling BEFORE refinement); plus pairs of more than 100 rows or columns with a wide masked area and an interval "
+        "without 0, through cross-checking and filling, judged on the final map; non-trivial = some compared cell / some valid pixel; distinct by full input"
     )
     for name, data in core.load_corpus(PROP):
         run_corpus_case(ctx, report, name, data)
@@ -495,6 +553,8 @@ def run(ctx, report, status):
         check_pipeline(ctx, report, case, pipe, "random")
     for case, pipe in offgrid_stream(ctx, ctx.n(20, 400)):
         check_pipeline(ctx, report, case, pipe, "filter_or_filling_before_refinement")
+    for _ in range(ctx.n(6, 40)):
+        check_large(ctx, report, ctx.rng)
 
 
 def search(ctx, report, status):
@@ -511,6 +571,11 @@ def search(ctx, report, status):
         return None
 
     rng = random.Random(ctx.seed + 77)
+    for _ in range(12):
+        check_large(ctx, sub, rng, "search")
+        f = unknown()
+        if f:
+            return f
     for c1, c2, kind, agg in pair_stream(ctx, 600, rng):
         check_pair(ctx, sub, c1, c2, kind, agg, with_model=False)
         f = unknown()
